@@ -8,5 +8,8 @@ go build -o /verif/bin/vcheck ./cmd/vcheck
 # warm the cache for the worker (plain verif build); output discarded
 T=$(mktemp -d)
 go build -tags verif -o "$T/vworker" ./cmd/vworker
+# warm the race-detector variant (C17 auxiliary pass) and the instrumenter
+go build -race -tags verif -o "$T/vworker-race" ./cmd/vworker
+go build -o "$T/vinstr" ./cmd/vinstr
 rm -rf "$T"
 echo setup-ok
